@@ -21,6 +21,7 @@ type Clause struct {
 	File  string
 	Line  int
 	Guard bool // requires clause that is a write guard (reported as guard.*)
+	Assumed bool // ensures clause that is assumed at call sites but not proved in the body (ghost bookkeeping)
 }
 
 type Contract struct {
@@ -92,6 +93,7 @@ type ContractSet struct {
 	Files  []string
 	// textual scan for forbidden constructs
 	Assumes []string
+	AssumedClauses []string
 }
 
 func NewContractSet() *ContractSet {
@@ -100,7 +102,7 @@ func NewContractSet() *ContractSet {
 
 var labelRe = regexp.MustCompile(`^(\{[A-Z0-9, ]+\}\s*)?([A-Za-z][A-Za-z0-9_.\-]*):(\s|$)`)
 var propsRe = regexp.MustCompile(`^\{([A-Z0-9, ]+)\}\s*`)
-var keywordRe = regexp.MustCompile(`^(use|opaque|reveal|import|ghost|uninterp|spec|func|iface|requires|guard|ensures|modifies|loop|pure|trusted|noinline|safe|fresh|lemma|params|results|props|probe|implements)\b`)
+var keywordRe = regexp.MustCompile(`^(assumed|use|opaque|reveal|import|ghost|uninterp|spec|func|iface|requires|guard|ensures|modifies|loop|pure|trusted|noinline|safe|fresh|lemma|params|results|props|probe|implements)\b`)
 
 // LoadFile parses one contract file. pkgPath is the import path of the package the file sits in
 // ("" for library spec files, where names must be qualified). trusted marks every contract assumed.
@@ -210,6 +212,17 @@ func (cs *ContractSet) LoadFile(file, pkgPath string, trusted bool) error {
 				return fail(it, "duplicate contract for %s (first at %s:%d)", key, old.File, old.Line)
 			}
 			cs.ByKey[key] = cur
+		case "assumed":
+			if cur == nil || !strings.HasPrefix(rest, "ensures ") {
+				return fail(it, "assumed wants: assumed ensures expr (inside a func)")
+			}
+			c, err := parseClause("ensures", strings.TrimSpace(rest[8:]), file, it.line)
+			if err != nil {
+				return fail(it, "%v", err)
+			}
+			c.Assumed = true
+			cur.Ensures = append(cur.Ensures, c)
+			cs.AssumedClauses = append(cs.AssumedClauses, fmt.Sprintf("%s: %s", cur.Display, c.Src))
 		case "requires", "guard", "ensures":
 			if cur == nil {
 				return fail(it, "%s outside func", kw)
